@@ -1,6 +1,7 @@
 import Rare.Proofs.C13Main
 import Rare.Proofs.C13Algo
 import Rare.Proofs.C13Real
+import Rare.Proofs.C13GoSort
 import Rare.Proofs.F64Parse
 import Rare.Gen.C13
 /-!
@@ -675,6 +676,20 @@ theorem sort_name_spellings :
 /-- The assumed `sort.Sort` contract is satisfiable: insertion sort, written as a comparison tree,
 meets it – so `perm_invariant`, `perm_invariant_partial` and `sort_result` are not vacuous. -/
 theorem sort_contract_satisfiable : SortContract (isortA (α := NV)) := isortA_contract
+
+/-- A second discharge, on the Go-shaped code: `sort.insertionSort` (`goInsertionSort`: the loop
+`for i := 1; i < n; i++ { for j := i; j > 0 && Less(j, j-1); j-- { Swap(j, j-1) } }` that `sort.Sort`
+runs for `n ≤ 12`, and what the driver's `sort` op executes) with a comparator that orders the distinct
+elements returns the sorted permutation – the reference sequence `isort`.  (Nothing is claimed about
+pdqsort for longer inputs: that is the assumption `SortContract`.) -/
+theorem go_insertion_sort_sorted {α : Type} {less : α → α → Bool} {l : List α} (hnd : l.Nodup)
+    (ho : OrderOn (· ∈ l) less) :
+    IsSorted less (goInsertionSort (pureCmp less) () l).1 l
+    ∧ (goInsertionSort (pureCmp less) () l).1 = isort less l :=
+  ⟨goInsertionSort_sorted hnd ho, goInsertionSort_eq_isort hnd ho⟩
+
+example : (goInsertionSort (pureCmp byNameSmartF) () [asc "10", asc "1a", asc "2", asc "1.0", asc "1"]).1
+    = [asc "1", asc "1.0", asc "2", asc "10", asc "1a"] := by decide +kernel
 
 /-- `perm_invariant` instantiated: numeric, reversed, three rows, two arrival orders. -/
 example (o : Oracle) :
